@@ -105,10 +105,16 @@ func (PlainCodec) Unmarshal(data []byte, v interface{}) error {
 	case nil:
 		return nil
 	case *string:
+		if s == nil {
+			return fmt.Errorf("plain codec: []byte can not be stored through a nil %T", v)
+		}
 		*s = string(data)
 	case []byte:
 		copy(s, data)
 	case *[]byte:
+		if s == nil {
+			return fmt.Errorf("plain codec: []byte can not be stored through a nil %T", v)
+		}
 		if length := len(data); cap(*s) < length {
 			*s = make([]byte, length)
 		} else {
